@@ -232,4 +232,110 @@ def inventory : List String := [
   "c/phonopy.c|phpy_get_thermal_properties|parallel for|i|i < num_qpoints|private(f,j,k)|if()|2b412cfcf9a8|"
 ]
 
+/-! ## heap temporaries of the kernels
+
+Every `malloc` of `/repo/c` (`mallocInventory`, recomputed by `tools/pragmas.py` on every run: function,
+variable, element type, element-count expression) with the index set the kernel uses on it as a function
+of the shape parameters and index tables.  `Temp.InBounds`: every access index is below the allocated
+element count. -/
+
+structure Temp where
+  size : Nat            -- allocated element count (the `malloc` expression of the C text)
+  accesses : List Nat   -- element indices read or written
+
+def Temp.InBounds (t : Temp) : Prop := ∀ x ∈ t.accesses, x < t.size
+def Temp.inBoundsB (t : Temp) : Bool := t.accesses.all fun x => decide (x < t.size)
+
+/-- phonopy.c distribute_fc2: `atom_list_reverse = malloc(sizeof(int) * num_pos)`, written at
+`atom_done = map_atoms[atom_list[i]]` when that equals `atom_list[i]`, read at `map_atoms[atom_list[i]]` otherwise:
+indexed by *supercell atom*, not by position in `atom_list`. -/
+def tAtomListReverse (npos len : Nat) (atomList mapAtoms : Nat → Nat) : Temp where
+  size := npos
+  accesses := for1 len fun i => [mapAtoms (atomList i)]
+
+/-- phonopy.c set_index_permutation_symmetry_compact_fc: `done = malloc(sizeof(char) * n_satom * n_patom)`,
+cells `i_p*n_satom + j` and `j_p*n_satom + i_trans` with `j_p = s2pp[j]`, `i_trans = perms[nsym_list[j]*n_satom + p2s[i_p]]` -/
+def tDone (ns np : Nat) (s2pp : Nat → Nat) (itrans : Nat → Nat → Nat) : Temp where
+  size := ns * np
+  accesses := for2 ns np fun j ip => [ip * ns + j, s2pp j * ns + itrans j ip]
+
+/-- dynmat.c get_dynmat_want: `charge_sum = malloc(sizeof(double[3][3]) * np * np)`, cell `[i*np + j][a][b]` (in doubles) -/
+def tChargeSum (np : Nat) : Temp where
+  size := np * np * 9
+  accesses := for2 np np fun i j => for2 3 3 fun a b => [(i * np + j) * 9 + a * 3 + b]
+
+/-- dynmat.c dym_get_charge_sum: `q_born = malloc(sizeof(double[3]) * np)` -/
+def tQBorn (np : Nat) : Temp where
+  size := np * 3
+  accesses := for2 np 3 fun i j => [i * 3 + j]
+
+/-- derivative_dynmat.c: `ddnac = malloc(sizeof(double) * np*np*27)`, index `k*np*np*9 + i*9*np + j*9 + l*3 + m` -/
+def tDdnac (np : Nat) : Temp where
+  size := np * np * 27
+  accesses := for3 3 np np fun k i j => for2 3 3 fun l m => [k * np * np * 9 + i * 9 * np + j * 9 + l * 3 + m]
+
+/-- derivative_dynmat.c: `dnac = malloc(sizeof(double) * np*np*9)`, index `i*9*np + j*9 + l*3 + m` -/
+def tDnac (np : Nat) : Temp where
+  size := np * np * 9
+  accesses := for2 np np fun i j => for2 3 3 fun l m => [i * 9 * np + j * 9 + l * 3 + m]
+
+/-- dynmat.c dd / dd_tmp / dd_tmp1 / dd_tmp2: `malloc(sizeof(double[2]) * np*np*9)`, complex cell
+`i*np*9 + k*np*3 + j*3 + l` (in doubles: the cells of `bornsLoop`) -/
+def tDdTmp (np : Nat) : Temp where
+  size := 2 * (np * np * 9)
+  accesses := (bornsLoop np).all
+
+/-- dynmat.c get_dd: `KK = malloc(sizeof(double[3][3]) * num_G)` (in doubles) -/
+def tKK (nG : Nat) : Temp where
+  size := nG * 9
+  accesses := (ddKKLoop nG).all
+
+/-- phonopy.c thermal properties: `tp = malloc(sizeof(double) * nq*nt*3)`: the loop cells and the reduction reads `i*nt*3 + j` -/
+def tTp (nq nt : Nat) : Temp where
+  size := nq * nt * 3
+  accesses := (thermalLoop nq nt).all ++ for2 nq (nt * 3) fun i j => [i * nt * 3 + j]
+
+/-- phonopy.c smallest vectors: `length`, `vec` = `malloc(… * num_lattice_points)`, index `k < num_lattice_points` (vec in doubles) -/
+def tGsvLength (nlp : Nat) : Temp where
+  size := nlp
+  accesses := whole nlp
+def tGsvVec (nlp : Nat) : Temp where
+  size := nlp * 3
+  accesses := for2 nlp 3 fun k l => [k * 3 + l]
+
+/-- phonopy.c tetrahedron_method_dos: `gp2ir = malloc(int64 * num_gp)` indexed by grid point `i`, by
+`grid_mapping_table[i]` and by the grid index of a neighbour (`gidx`, a residue modulo the mesh) -/
+def tGp2ir (ngp : Nat) (gmt : Nat → Nat) (neigh : List Nat) : Temp where
+  size := ngp
+  accesses := (for1 ngp fun i => [i, gmt i]) ++ neigh
+
+/-- `ir_grid_points`, `weights` = `malloc(int64 * num_ir_gp)`: written at `count` = number of fixed points of
+`grid_mapping_table` seen so far, `weights` also at `gp2ir[i]` -/
+def tIrGridPoints (nir ngp : Nat) (gmt : Nat → Nat) : Temp where
+  size := nir
+  accesses := for1 ngp fun i => if gmt i = i then [((List.range i).filter fun k => gmt k = k).length] else []
+
+def mallocInventory : List String := [
+  "c/derivative_dynmat.c|ddm_get_derivative_dynmat_at_q|ddnac|double|num_patom * num_patom * 27",
+  "c/derivative_dynmat.c|ddm_get_derivative_dynmat_at_q|dnac|double|num_patom * num_patom * 9",
+  "c/dynmat.c|dym_dynamical_matrices_with_dd_openmp_over_qpoints|q_dir_cart|double|3",
+  "c/dynmat.c|get_dynmat_want|charge_sum|double[3][3]|num_patom * num_patom",
+  "c/dynmat.c|add_dynmat_dd_at_q|dd|double[2]|num_patom * num_patom * 9",
+  "c/dynmat.c|dym_get_recip_dipole_dipole|dd_tmp|double[2]|num_patom * num_patom * 9",
+  "c/dynmat.c|dym_get_recip_dipole_dipole_q0|dd_tmp1|double[2]|num_patom * num_patom * 9",
+  "c/dynmat.c|dym_get_recip_dipole_dipole_q0|dd_tmp2|double[2]|num_patom * num_patom * 9",
+  "c/dynmat.c|dym_get_charge_sum|q_born|double[3]|num_patom",
+  "c/dynmat.c|get_dd|KK|double[3][3]|num_G",
+  "c/phonopy.c|phpy_tetrahedron_method_dos|gp2ir|int64_t|num_gp",
+  "c/phonopy.c|phpy_tetrahedron_method_dos|ir_grid_points|int64_t|num_ir_gp",
+  "c/phonopy.c|phpy_tetrahedron_method_dos|weights|int64_t|num_ir_gp",
+  "c/phonopy.c|phpy_get_thermal_properties|tp|double|num_qpoints * num_temp * 3",
+  "c/phonopy.c|phpy_set_smallest_vectors_sparse|length|double|num_lattice_points",
+  "c/phonopy.c|phpy_set_smallest_vectors_sparse|vec|double[3]|num_lattice_points",
+  "c/phonopy.c|phpy_set_smallest_vectors_dense|length|double|num_lattice_points",
+  "c/phonopy.c|phpy_set_smallest_vectors_dense|vec|double[3]|num_lattice_points",
+  "c/phonopy.c|phpy_set_index_permutation_symmetry_compact_fc|done|char|n_satom * n_patom",
+  "c/phonopy.c|distribute_fc2|atom_list_reverse|int|num_pos"
+]
+
 end PhononModel.Footprint
